@@ -10,8 +10,29 @@ fn tier_of(s: &str) -> Tier {
     }
 }
 
+/// The process's own command line must be one the crate's CLI parser accepts: a `Cucumber` that
+/// lost the options given to `with_cli()` parses `std::env::args()` instead, and with our arguments
+/// there clap would end the process (a harness error) where an empty command line lets the run go
+/// on with default options - a difference the oracles see. So every invocation re-executes itself
+/// with its arguments moved into `VLAB_ARGV`.
+fn argv() -> Vec<String> {
+    let real: Vec<String> = std::env::args().collect();
+    if real.len() > 1 {
+        let exe = std::env::current_exe().expect("current_exe");
+        use std::os::unix::process::CommandExt as _;
+        let err = std::process::Command::new(exe).env("VLAB_ARGV", real[1..].join("\u{1f}")).exec();
+        eprintln!("HARNESS-ERROR cannot re-execute: {err}");
+        std::process::exit(2);
+    }
+    let mut v = vec![real.first().cloned().unwrap_or_else(|| "vcheck".into())];
+    if let Ok(a) = std::env::var("VLAB_ARGV") {
+        v.extend(a.split('\u{1f}').map(str::to_string));
+    }
+    v
+}
+
 fn main() {
-    let args: Vec<String> = std::env::args().collect();
+    let args: Vec<String> = argv();
     let usage = || -> ! {
         eprintln!("usage: vcheck run|worker|saved|replay <ID> ...");
         std::process::exit(2)
